@@ -1,7 +1,185 @@
-//! C17 (to be filled in)
+//! C17 — --gitignore copies exactly the entries the root .gitignore does not exclude (oracle: git itself)
+
 use super::*;
-pub fn run(_ctx: &Ctx) -> Report {
-    let mut r = Report::new("model_checking", "not implemented");
-    r.machinery_errors.push("C17 not implemented yet".into());
-    r
+use crate::explore::Judge;
+use crate::scen::{Content, Entry, Kind};
+use std::collections::BTreeSet;
+use std::io::Write;
+
+fn tree_base() -> Vec<Entry> {
+    let mut v = vec![Entry::dir("src")];
+    for d in ["src/d", "src/d/e", "src/f", "src/f/a"] {
+        v.push(Entry::dir(d));
+    }
+    for f in ["src/a", "src/b", "src/a.txt", "src/.h", "src/d/a", "src/d/b.txt", "src/d/e/a", "src/d/e/c", "src/f/a/z"] {
+        v.push(Entry::file(f, f));
+    }
+    v
+}
+
+pub fn alphabet() -> Vec<&'static str> {
+    vec!["a", "/a", "a/", "d", "d/", "/d/", "*", "*.txt", "?", "d/*", "**/a", "d/**", "!a", "!d/a", "!d/", "!*.txt", "!d", "#c", "", ".h", ".*", "d/e", "e/", "**/e/", "/d/a", "f/a", "!f/a/"]
+}
+
+/// ask git which of the source entries are ignored under this .gitignore
+fn git_ignored(w: &Worker, scen: &Scenario) -> Result<BTreeSet<String>, String> {
+    let repo = format!("{}/gitrepo", w.base_ext4);
+    let stamp = format!("{}/.stamp", repo);
+    let paths: Vec<String> = scen.tree.iter().filter(|e| e.path.starts_with("src/")).map(|e| e.path["src/".len()..].to_string()).collect();
+    let key = crate::util::hash_bytes(paths.join("\n").as_bytes()).to_string();
+    let env = |c: &mut std::process::Command| {
+        c.env_clear().env("PATH", "/usr/bin:/bin").env("HOME", &repo).env("XDG_CONFIG_HOME", format!("{}/.xdg", repo)).env("GIT_CONFIG_GLOBAL", "/dev/null").env("GIT_CONFIG_SYSTEM", "/dev/null").env("GIT_CONFIG_NOSYSTEM", "1").env("LC_ALL", "C");
+    };
+    if std::fs::read_to_string(&stamp).ok().as_deref() != Some(key.as_str()) {
+        let _ = std::fs::remove_dir_all(&repo);
+        std::fs::create_dir_all(&repo).map_err(|e| e.to_string())?;
+        let mut c = std::process::Command::new("git");
+        c.args(["init", "-q", &repo]);
+        env(&mut c);
+        let st = c.status().map_err(|e| format!("git init: {}", e))?;
+        if !st.success() {
+            return Err("git init failed".into());
+        }
+        for e in scen.tree.iter().filter(|e| e.path.starts_with("src/")) {
+            let p = format!("{}/{}", repo, &e.path["src/".len()..]);
+            match &e.kind {
+                Kind::Dir => std::fs::create_dir_all(&p).map_err(|e| e.to_string())?,
+                Kind::File(_) => std::fs::write(&p, b"x").map_err(|e| e.to_string())?,
+                _ => {}
+            }
+        }
+        std::fs::write(&stamp, &key).map_err(|e| e.to_string())?;
+    }
+    let gi = scen.tree.iter().find(|e| e.path == "src/.gitignore").and_then(|e| e.content()).map(|c| c.bytes()).unwrap_or_default();
+    std::fs::write(format!("{}/.gitignore", repo), &gi).map_err(|e| e.to_string())?;
+    let mut c = std::process::Command::new("git");
+    c.args(["-C", &repo, "check-ignore", "--no-index", "--stdin"]);
+    env(&mut c);
+    c.stdin(std::process::Stdio::piped()).stdout(std::process::Stdio::piped()).stderr(std::process::Stdio::piped());
+    let mut ch = c.spawn().map_err(|e| format!("git: {}", e))?;
+    {
+        let mut si = ch.stdin.take().unwrap();
+        for p in &paths {
+            let _ = writeln!(si, "{}", p);
+        }
+    }
+    let out = ch.wait_with_output().map_err(|e| e.to_string())?;
+    // exit 0 = some ignored, 1 = none ignored, 128 = error
+    if out.status.code() != Some(0) && out.status.code() != Some(1) {
+        return Err(format!("git check-ignore failed: {}", String::from_utf8_lossy(&out.stderr)));
+    }
+    Ok(String::from_utf8_lossy(&out.stdout).lines().map(|l| l.trim().to_string()).filter(|l| !l.is_empty()).collect())
+}
+
+pub fn judge(w: &Worker, scen: &Scenario, ex: &Exec) -> Judgement {
+    let mut v = vec![];
+    let all: Vec<String> = scen.tree.iter().filter(|e| e.path.starts_with("src/")).map(|e| e.path["src/".len()..].to_string()).collect();
+    let use_gi = scen.args.iter().any(|a| a == "--gitignore");
+    let mut nontrivial = false;
+    let expected: BTreeSet<String> = if use_gi {
+        match git_ignored(w, scen) {
+            Ok(ig) => {
+                nontrivial = !ig.is_empty();
+                all.iter()
+                    .filter(|p| {
+                        let mut q = p.as_str();
+                        loop {
+                            if ig.contains(q) {
+                                return false;
+                            }
+                            match q.rfind('/') {
+                                Some(i) => q = &q[..i],
+                                None => return true,
+                            }
+                        }
+                    })
+                    .cloned()
+                    .collect()
+            }
+            Err(e) => {
+                // the oracle itself failed: this is a machinery problem, reported as such through the outcome key
+                return Judgement { violations: vec![], outcome_key: format!("ORACLE-ERROR {}", e), nontrivial: false };
+            }
+        }
+    } else {
+        all.iter().cloned().collect()
+    };
+    if exit0(ex) {
+        let got: BTreeSet<String> = ex.snap.keys().filter(|k| k.starts_with("dst/")).map(|k| k["dst/".len()..].to_string()).collect();
+        let missing: Vec<&String> = expected.difference(&got).collect();
+        let extra: Vec<&String> = got.difference(&expected).collect();
+        if !missing.is_empty() {
+            v.push(format!("not copied although git does not ignore them: {:?}", missing));
+        }
+        if !extra.is_empty() {
+            v.push(format!("copied although git ignores them: {:?}", extra));
+        }
+        // what was copied must be byte-identical too
+        for k in got.intersection(&expected) {
+            if let (Some(a), Some(b)) = (ex.snap.get(&format!("src/{}", k)), ex.snap.get(&format!("dst/{}", k))) {
+                if a.kind != b.kind || (a.kind == 'f' && a.hash != b.hash) {
+                    v.push(format!("{} differs from its source", k));
+                }
+            }
+        }
+    } else if !ex.res.outcome.is_hang() {
+        v.push(format!("valid copy ends with {}", ex.res.outcome.short()));
+    }
+    simple_judge(v, ex, nontrivial)
+}
+
+pub fn scenarios(lines: usize) -> Vec<Scenario> {
+    let al = alphabet();
+    let mut texts: Vec<Vec<&str>> = vec![];
+    fn rec<'a>(al: &[&'a str], cur: &mut Vec<&'a str>, depth: usize, out: &mut Vec<Vec<&'a str>>) {
+        if !cur.is_empty() {
+            out.push(cur.clone());
+        }
+        if depth == 0 {
+            return;
+        }
+        for p in al {
+            cur.push(p);
+            rec(al, cur, depth - 1, out);
+            cur.pop();
+        }
+    }
+    rec(&al, &mut vec![], lines, &mut texts);
+    let mut v = vec![];
+    for d in drivers() {
+        for t in &texts {
+            let mut tree = tree_base();
+            let mut body = t.join("\n");
+            body.push('\n');
+            tree.push(Entry::new("src/.gitignore", Kind::File(Content::Bytes(crate::util::esc(body.as_bytes())))));
+            v.push(Scenario::new(&format!("gitignore-{}-[{}]", d, t.join("|")), tree, &["-r", "--gitignore", "--driver", d, "-w", "2", "src", "dst"]));
+        }
+        // without the option nothing is filtered
+        for t in [vec!["*"], vec!["d/", "*.txt"]] {
+            let mut tree = tree_base();
+            tree.push(Entry::file("src/.gitignore", &format!("{}\n", t.join("\n")).replace('\n', "\\x0a")));
+            v.push(Scenario::new(&format!("no-gitignore-option-{}-[{}]", d, t.join("|")), tree, &["-r", "--driver", d, "-w", "2", "src", "dst"]));
+        }
+        // no .gitignore file at all
+        v.push(Scenario::new(&format!("gitignore-absent-{}", d), tree_base(), &["-r", "--gitignore", "--driver", d, "-w", "2", "src", "dst"]));
+    }
+    v
+}
+
+pub fn run(ctx: &Ctx) -> Report {
+    let lines = if ctx.quick() { 2 } else { 3 };
+    let mut rep = Report::new(
+        "model_checking",
+        "a fixed 13-entry source tree x every .gitignore of 1..k lines over a 27-pattern alphabet (literals, *, ?, **/, trailing /, leading /, ! negation, comment, blank line, hidden names) x both drivers, plus controls without the option / without the file; oracle: git itself (`git check-ignore --no-index --stdin` in a scratch repository with global and system configuration disabled) decides each path, an entry is expected iff neither it nor an ancestor is ignored; the destination path set must equal the expected set; non-trivial = git ignores at least one entry, per distinct (scenario, trace)",
+    );
+    crate::explore::SNAP_BEFORE.store(false, std::sync::atomic::Ordering::Relaxed);
+    let j: Judge = &judge;
+    let sc = scenarios(lines);
+    let n = sc.len();
+    let st = scen_batch(ctx, sc, &[Policy::P0], j);
+    let oracle_errors: Vec<String> = st.outcomes.keys().filter(|k| k.starts_with("ORACLE-ERROR")).cloned().collect();
+    rep.part("gitignore texts x drivers", st, serde_json::json!({"lines": lines, "alphabet": alphabet(), "scenarios": n}));
+    rep.machinery_errors.extend(oracle_errors);
+    rep.assumptions = vec!["git (2.39) is the specification of the pattern semantics".into()];
+    rep
 }
